@@ -22,6 +22,7 @@ C04(r) ==
   IF r.err # "" THEN [no_exception |-> FALSE] ELSE
   [ no_exception     |-> TRUE,
     in_domain        |-> All(r, LAMBDA rk : Streamed(rk) # {}),
+    input_faithful |-> All(r, LAMBDA rk : RowsFaithful(Range(rk.rows), Range(rk.file))),
     kernel_time      |-> All(r, LAMBDA rk : rk.ktime = KernelTime(Streamed(rk))),
     idle_time        |-> All(r, LAMBDA rk : rk.idle = IdleTime(Streamed(rk))),
     compute_time     |-> All(r, LAMBDA rk : rk.comp = ComputeTime(Streamed(rk))),
@@ -38,6 +39,7 @@ C07(r) ==
   IF r.err # "" THEN [no_exception |-> FALSE] ELSE
   [ no_exception |-> TRUE,
     in_domain     |-> All(r, LAMBDA rk : OfClass(Streamed(rk), "COMMUNICATION") # {}),
+    input_faithful |-> All(r, LAMBDA rk : RowsFaithful(Range(rk.rows), Range(rk.file))),
     overlap_pctg |-> All(r, LAMBDA rk : CommTime(Streamed(rk)) > 0 =>
                            PctOK(rk.pctg, OverlapTime(Streamed(rk)), CommTime(Streamed(rk)))),
     range        |-> All(r, LAMBDA rk : CommTime(Streamed(rk)) > 0 => (rk.pctg >= 0 /\ rk.pctg <= 10000)) ]
@@ -62,6 +64,7 @@ C05(r) ==
   IN
   [ no_exception  |-> TRUE,
     in_domain     |-> All(r, LAMBDA rk : Streamed(rk) # {}),
+    input_faithful |-> All(r, LAMBDA rk : RowsFaithful(Range(rk.rows), Range(rk.file))),
     type_times    |-> \A m \in ValidMasks(types) : TypeReported(r, RowName(types, m)) = ExactlyAllRanks(r, types, m),
     type_only     |-> \A j \in DOMAIN r.types : r.types[j].sum = 0 \/ \E m \in ValidMasks(types) : r.types[j].name = RowName(types, m),
     type_total    |-> LET RS == Ranks(r) IN total = SumSet(RS, [rk \in RS |-> Cardinality(AnalysedCells(Streamed(rk), types))]),
